@@ -313,6 +313,76 @@ def oracle(ctx, rng, n_cases):
     return worst
 
 
+def oracle_sweep(ctx, rng, n):
+    """the same slab identities inside real sweeps: every wall cell of every low-fidelity region, right after the Assembly has
+    computed a plane, against the gap temperatures / film coefficients / adiabatic flag the Assembly was GIVEN for that plane
+    (gap models none / flow / no_flow, energy-balance tallies on and off, simple and six-node regions)"""
+    import dassh
+    from harness import gen_input as gi
+    worst = 0.0
+    for ci in range(n):
+        pos = [(1, 1)] + [p for p in gi.core_positions(2)[1:] if rng.random() < 0.4]
+        case = gi.random_case(rng, positions=pos, n_types=rng.choice([1, 2]), gap_model=['none', 'flow', 'no_flow'][ci % 3],
+                              length=round(rng.uniform(0.08, 0.2), 3), flow_range=(0.5, 4.0))
+        case['setup']['calc_energy_balance'] = ci % 2 == 0
+        for tn in list(case['types']):
+            gi.add_axial_regions(rng, case, tn, lower=True, upper=rng.random() < 0.7, models=('6node',) if ci % 2 == 0 else ('simple', '6node'))
+        gi.random_power(rng, case)
+        d = str(ctx.work / ("sw%d" % ci))
+        try:
+            inp, r = gi.build_reactor(case, d)
+        except SystemExit:
+            ctx.count("sweep_case_rejected")
+            continue
+        bad = []
+        orig = dassh.Assembly.calculate
+
+        def wrapped(self, dz, t_gap, h_gap, z=None, adiabatic=False, ebal=False):
+            reg0 = self.active_region
+            pre = None
+            if not reg0.is_rodded:
+                pre = (np.array(reg0.temp['coolant_int'], dtype=float).copy(), float(np.ravel(reg0.coolant_params['htc'])[0]))
+            out = orig(self, dz, t_gap, h_gap, z, adiabatic, ebal)
+            reg = self.active_region
+            if reg is reg0 and not reg.is_rodded and not bad:
+                tg = np.broadcast_to(np.asarray(t_gap, dtype=float), (6,)) if np.ndim(t_gap) == 0 else np.asarray(t_gap, dtype=float)
+                hg = np.broadcast_to(np.asarray(h_gap, dtype=float), (6,)) if np.ndim(h_gap) == 0 else np.asarray(h_gap, dtype=float)
+                # the single-node model solves the wall BEFORE it advances the coolant (coolant and film coefficient of the plane it
+                # starts from), the six-node model after it
+                six = getattr(reg, 'model', 'simple') == '6node'
+                tc = np.asarray(reg.temp['coolant_int'], dtype=float) if six else pre[0]
+                h_in_ = float(np.ravel(reg.coolant_params['htc'])[0]) if six else pre[1]
+                for j in range(6):
+                    res = flux_residuals(float(tc[j if tc.shape[0] == 6 else 0]), float(tg[j]), h_in_,
+                                         float(hg[j]), 0.0, reg.duct_thickness, reg.duct.thermal_conductivity,
+                                         float(reg.temp['duct_mw'][0, j]), float(reg.temp['duct_surf'][0, 0, j]),
+                                         float(reg.temp['duct_surf'][0, 1, j]), bool(adiabatic))
+                    w = max(abs(v) for v in res.values())
+                    if w > 1e-6:          # (small wall-to-gap differences in a sweep: cancellation costs a few digits)
+                        bad.append((self.id, getattr(reg, 'model', 'simple'), j, bool(adiabatic), bool(ebal), res))
+                        break
+                ctx.count("sweep_wall_cells", 6)
+            return out
+        dassh.Assembly.calculate = wrapped
+        try:
+            gi.sweep(r)
+        except SystemExit:
+            ctx.count("sweep_stopped_by_dassh")
+        finally:
+            dassh.Assembly.calculate = orig
+        ctx.evals += 1
+        if bad:
+            aid, model, j, adiab, ebal, res = bad[0]
+            ctx.violation("c11-sweep-unrodded-flux:%s" % model, "during a sweep (gap model %s, energy balance %s) wall cell %d of a %s region of "
+                          "assembly %d does not satisfy the slab identities for the boundary condition the assembly was given (adiabatic = %s): %s"
+                          % (case['core']['gap_model'], ebal, j, model, aid, adiab, {k: float("%.3g" % v) for k, v in res.items()}),
+                          case=case, cell=j, model=model)
+            return worst
+        import shutil
+        shutil.rmtree(d, ignore_errors=True)
+    return worst
+
+
 def validate_emission(ctx, g, rng):
     """The emitted Lean definitions, evaluated by Lean over Q, must equal the
     exact evaluation of the traced DAG in Python (checks the emitter)."""
@@ -364,6 +434,7 @@ def run(ctx):
             validate_emission(ctx, g, rng)
     n = 150 if ctx.thorough else 40
     worst = oracle(ctx, rng, n)
+    oracle_sweep(ctx, rng, 12 if ctx.thorough else 4)
     ctx.stats["oracle_worst_rel_residual"] = worst
     ctx.nontrivial = ctx.evals
     ctx.traces = ctx.evals
